@@ -1,0 +1,39 @@
+//go:build verif
+
+package sql
+
+// Verification harness (build tag verif only; see /verif/DESIGN.md, C06/C07).
+
+// verifScenarioWrite is the storage-level shape of one Witness.Update against the SQL store:
+// open a write handle, read the latest checkpoint, set a new one, close.  The crash invariant in
+// zz_contracts_verif.go is asserted at every database-driver call boundary of this scenario.
+func verifScenarioWrite(p *sqlLogPersistence, id string, c []byte) (werr error, seen []byte, gerr error, serr error) {
+	w, werr := p.WriteOps(id)
+	if werr != nil {
+		return werr, nil, nil, werr
+	}
+	defer w.Close()
+	seen, gerr = w.GetLatest()
+	if gerr != nil {
+		return nil, seen, gerr, gerr
+	}
+	serr = w.Set(c)
+	return nil, seen, gerr, serr
+}
+
+// verifScenarioRefuse is an update that is refused after the read: the handle is closed without Set.
+func verifScenarioRefuse(p *sqlLogPersistence, id string) (werr error, seen []byte, gerr error) {
+	w, werr := p.WriteOps(id)
+	if werr != nil {
+		return werr, nil, nil
+	}
+	defer w.Close()
+	seen, gerr = w.GetLatest()
+	return nil, seen, gerr
+}
+
+// verifScenarioRead is the storage-level shape of Witness.GetCheckpoint.
+func verifScenarioRead(p *sqlLogPersistence, id string) ([]byte, error) {
+	r, _ := p.ReadOps(id)
+	return r.GetLatest()
+}
